@@ -59,6 +59,12 @@ where
             return Err(InvalidView);
         }
 
+        // The archived root sits at the end of the buffer, a buffer smaller than
+        // the root itself cannot contain it (and must not be handed to rkyv).
+        if data_bytes.len() < mem::size_of::<T::Archived>() {
+            return Err(InvalidView);
+        }
+
         let view = unsafe { rkyv::archived_root::<T>(data_bytes) };
 
         Ok(Self { data, view })
